@@ -596,6 +596,9 @@ func (k c15) shownFilter(c *rt.Ctx) {
 		case 7:
 			return gen.Bin("*", gen.Int(int64(2*r.Range(1, 4))), half())
 		case 8:
+			if r.Bool() { // a magnitude below 1e-4: no exponent in the shown literal
+				return gen.Bin("*", gen.Float([]string{"0.00001", "0.0005", "0.000125"}[r.Intn(3)]), gen.Float([]string{"0.5", "0.25"}[r.Intn(2)]))
+			}
 			return gen.Bin("*", gen.Float("2.0"), gen.Float([]string{"1.0", "3.0", "4.0"}[r.Intn(3)]))
 		case 0:
 			return gen.Bin("+", odd(), half())
@@ -649,6 +652,9 @@ func (k c15) shownFilter(c *rt.Ctx) {
 			tree = gen.Or(no, tree)
 		default:
 			tree = gen.Or(tree, no)
+		}
+		if r.Chance(1, 3) {
+			tree.Sym = false // spelled and / or: not simplified away, the literal must then be a text the parser takes
 		}
 	}
 	var pairs []refstore.Pair
